@@ -24,7 +24,7 @@ thread_local! {
     static EPOCH: Cell<bool> = const { Cell::new(false) };
     static IN_TRACKER: Cell<bool> = const { Cell::new(false) };
     static FOREIGN_FREES: Cell<u64> = const { Cell::new(0) };
-    static EPOCH_PTRS: RefCell<Vec<usize>> = const { RefCell::new(Vec::new()) };
+    static EPOCH_PTRS: RefCell<std::collections::BTreeSet<usize>> = const { RefCell::new(std::collections::BTreeSet::new()) };
 }
 
 #[derive(Clone, Copy, Debug, Default, PartialEq, Eq)]
@@ -102,7 +102,7 @@ fn note_alloc(ptr: *mut u8, size: usize) {
         }
     });
     if EPOCH.try_with(|c| c.get()).unwrap_or(false) {
-        with_tracker(|| EPOCH_PTRS.with(|p| p.borrow_mut().push(ptr as usize)));
+        with_tracker(|| EPOCH_PTRS.with(|p| { p.borrow_mut().insert(ptr as usize); }));
     }
 }
 
@@ -111,13 +111,7 @@ fn note_free(ptr: *mut u8, size: usize) -> bool {
     if !in_tracker() && EPOCH.try_with(|c| c.get()).unwrap_or(false) {
         let found = with_tracker(|| {
             EPOCH_PTRS.with(|p| {
-                let mut p = p.borrow_mut();
-                if let Some(i) = p.iter().rposition(|x| *x == ptr as usize) {
-                    p.swap_remove(i);
-                    true
-                } else {
-                    false
-                }
+                p.borrow_mut().remove(&(ptr as usize))
             })
         });
         if !found {
